@@ -314,6 +314,25 @@ impl<'a, F: IVP> SolOut for DefaultSolOut<'a, F> {
                     // Check for terminal event
                     if let Some(limit) = config.terminal_count {
                         if self.event_hits[i] >= limit {
+                            // Requested output times of this step that are not beyond the event are still due
+                            if let (Some(t_eval), Some(interp)) = (self.t_eval.as_ref(), interpolant) {
+                                while self.next_idx < t_eval.len() {
+                                    let te = t_eval[self.next_idx];
+                                    let due = if forward { te <= event_t } else { te >= event_t };
+                                    if !due {
+                                        break;
+                                    }
+                                    let in_step = if forward { te >= xold - self.tol } else { te <= xold + self.tol };
+                                    if in_step {
+                                        let mut yi = vec![0.0; y.len()];
+                                        interp.interpolate(te, &mut yi);
+                                        self.t.push(te);
+                                        self.y.push(yi);
+                                    }
+                                    self.next_idx += 1;
+                                }
+                            }
+
                             // Add the terminal event point to the output
                             self.t.push(event_t);
                             self.y.push(event_y);
